@@ -1,3 +1,4 @@
+import Goflow.Cost
 import Goflow.Wrapped
 import Goflow
 import Goflow.Gen.C05
@@ -250,7 +251,12 @@ def execOp (st : DState) (line : String) : DState × Option (List String) :=
       let r := match o.err with
         | none => "res ok"
         | some e => resLine e
-      (st', some [r ++ " n=" ++ toString o.msgs.length ++ " budget=ok"])
+      -- the modelled allocation of this datagram and the width of the widest template it can reference
+      -- (Goflow/Cost.lean; Proofs/C02Cost.lean cost_within_budget: cost ≤ 16 MiB + 256·len·(1 + widest) for len ≤ 16000)
+      let src : Pipe.Src := ⟨ip, port.toNat!⟩
+      let cost := Pipe.pipeCost k cfg ps src d
+      let w := Pipe.widest k ps src d
+      (st', some [r ++ " n=" ++ toString o.msgs.length ++ " budget=ok", "cost " ++ toString cost ++ " " ++ toString w])
     | _, _, _ => (st, some ["bad-op"])
   | ["poison", _, _] => (st, some ["res ok"])      -- the model has no message pool: every message starts from Reset()
   | ["pkt", pid, iphex, port, recv, hex] =>
